@@ -410,6 +410,7 @@ func run(c *runner.Ctx) {
 		}
 	}
 	pairs(c, ks)
+	afterQuotedIn(c, ks)
 }
 
 // pairs: two size rules on one value, collected the way callers collect them (Var's variadic rules, RM.Set called
@@ -494,6 +495,74 @@ func pairs(c *runner.Ctx, ks []kindSpec) {
 			}
 		}
 	}
+}
+
+// afterQuotedIn: the size rule is the last rule of a list whose first rule is an in / include with quoted options
+// (which the value satisfies): the size rule is judged as when it stands alone.
+func afterQuotedIn(c *runner.Ctx, ks []kindSpec) {
+	for _, k := range ks {
+		if k.name != "string" {
+			continue
+		}
+		for _, r := range rules {
+			c.Space(fmt.Sprintf("after-quoted-in/%s", r.name))
+			for lo := -1; lo <= 13; lo++ {
+				for hi := lo; hi <= lo+3; hi++ {
+					if !r.two && hi != lo {
+						continue
+					}
+					if !c.Take() {
+						continue
+					}
+					rt := fmt.Sprintf("%s=%d", r.name, lo)
+					if r.two {
+						rt = fmt.Sprintf("%s=%d~%d", r.name, lo, hi)
+					}
+					for _, v := range k.values {
+						sv := v.String()
+						if strings.ContainsAny(sv, "'/,()|\\\"`") || hasCtl(sv) || len(sv) > 60 {
+							continue
+						}
+						m := measureOf(v)
+						want, _ := violated(r.name, m, lo, hi)
+						for fi, list := range []string{"in=('" + sv + "'/'zz')," + rt, "include=('" + sv + "'),in=('zz'/'" + sv + "')," + rt} {
+							for _, car := range []carrier.Kind{carrier.Var, carrier.StructTag, carrier.Map} {
+								var errStr string
+								var isNil bool
+								pan, msg, site := runner.Guard(func() { errStr, isNil = carrier.Validate(car, v, list) })
+								c.Done(near(m, lo) || near(m, hi), 1)
+								det := map[string]interface{}{"rules": list, "carrier": car, "value": sv, "form": fi, "expected_violated": want, "error": errStr}
+								if pan {
+									det["panic"] = msg
+									c.Violation("after-quoted-in/panic@"+site, det)
+									continue
+								}
+								n := 0
+								if !isNil {
+									n = len(errparse.Split(errStr))
+								}
+								if (want && n != 1) || (!want && n != 0) {
+									c.Outcome("after-quoted-in-differs")
+									c.Violation(fmt.Sprintf("after-quoted-in/%s/%d-clauses-expected-%v", r.name, n, want), det)
+								} else {
+									c.Outcome("after-quoted-in-ok")
+								}
+							}
+						}
+					}
+				}
+			}
+		}
+	}
+}
+
+func hasCtl(s string) bool {
+	for i := 0; i < len(s); i++ {
+		if s[i] < 0x20 || s[i] == 0x7f {
+			return true
+		}
+	}
+	return false
 }
 
 func evalOne(c *runner.Ctx, rname, kname string, car carrier.Kind, ruleText string, lo, hi int, v reflect.Value) {
